@@ -517,3 +517,100 @@ Proof.
     + replace (r_step r <? 0) with true by (symmetry; apply Z.ltb_lt; lia).
       f_equal. apply wrap64_id. unfold two63. lia.
 Qed.
+
+(* ------------------------------------------------------------------ Range is well-behaved *)
+Definition range_chain (r : rng) : list (cur * val) :=
+  map (fun v => (CInt v, VInt v)) (range_elems r).
+
+Lemma range_elems_length r : length (range_elems r) = Z.to_nat (range_count r).
+Proof. unfold range_elems. now rewrite map_length, seq_length. Qed.
+
+Lemma seq_nth_error n : forall s i, (i < n)%nat -> nth_error (seq s n) i = Some (s + i)%nat.
+Proof.
+  induction n; intros s i H; [lia|]. destruct i; simpl.
+  - now rewrite Nat.add_0_r.
+  - rewrite IHn by lia. f_equal. lia.
+Qed.
+
+Lemma range_elems_nth r i : (i < Z.to_nat (range_count r))%nat ->
+  nth_error (range_elems r) i = Some (range_val r (Z.of_nat i)).
+Proof.
+  intros H. unfold range_elems. rewrite nth_error_map, seq_nth_error by auto. reflexivity.
+Qed.
+
+Lemma range_chain_at r i :
+  cur_at (range_chain r) i =
+  if (i <? Z.to_nat (range_count r))%nat then Some (CInt (range_val r (Z.of_nat i))) else None.
+Proof.
+  unfold cur_at, range_chain. rewrite nth_error_map.
+  destruct (Nat.ltb_spec i (Z.to_nat (range_count r))) as [H|H].
+  - now rewrite range_elems_nth.
+  - assert (nth_error (range_elems r) i = None) as -> by (apply nth_error_None; now rewrite range_elems_length).
+    reflexivity.
+Qed.
+
+Lemma range_chain_nth r i c v : nth_error (range_chain r) i = Some (c, v) ->
+  (i < Z.to_nat (range_count r))%nat /\ c = CInt (range_val r (Z.of_nat i)) /\ v = VInt (range_val r (Z.of_nat i)).
+Proof.
+  intros E. assert (i < length (range_chain r))%nat by (apply nth_error_Some; congruence).
+  unfold range_chain in *. rewrite map_length, range_elems_length in H. split; auto.
+  rewrite nth_error_map, range_elems_nth in E by auto. simpl in E. inversion E. auto.
+Qed.
+
+Theorem wb_range f r : in_box r -> wb f (IRange r) (range_chain r).
+Proof.
+  intros Hb. pose proof (range_count_nonneg r) as Hc0. constructor.
+  - cbn [it_start ostart]. rewrite range_init_ok, range_chain_at by auto.
+    destruct (Z.ltb_spec 0 (range_count r)); destruct (Nat.ltb_spec 0 (Z.to_nat (range_count r))); try lia; reflexivity.
+  - cbn [it_start ostart]. rewrite range_last_ok by auto.
+    unfold range_chain at 2. rewrite map_length, range_elems_length.
+    destruct (Z.ltb_spec 0 (range_count r)).
+    + destruct (Z.to_nat (range_count r)) as [|n] eqn:En; [lia|]. cbn [cur_before]. rewrite range_chain_at, En.
+      replace (n <? S n)%nat with true by (symmetry; apply Nat.ltb_lt; lia).
+      cbn [option_map]. do 4 f_equal. lia.
+    + replace (Z.to_nat (range_count r)) with 0%nat by lia. reflexivity.
+  - intros i c v E. apply range_chain_nth in E as (_ & -> & ->). reflexivity.
+  - intros i c v E. apply range_chain_nth in E as (Hi & -> & _).
+    cbn [it_step ostep]. rewrite range_next_ok by (auto; lia). rewrite range_chain_at.
+    destruct (Z.ltb_spec (Z.of_nat i + 1) (range_count r)); destruct (Nat.ltb_spec (S i) (Z.to_nat (range_count r))); try lia; auto.
+    cbn [option_map]. do 4 f_equal. lia.
+  - intros i c v E. apply range_chain_nth in E as (Hi & -> & _).
+    cbn [it_step ostep]. rewrite range_prev_ok by (auto; lia).
+    destruct i as [|i]; [reflexivity|]. cbn [cur_before]. rewrite range_chain_at.
+    replace (0 <? Z.of_nat (S i)) with true by (symmetry; apply Z.ltb_lt; lia).
+    replace (i <? Z.to_nat (range_count r))%nat with true by (symmetry; apply Nat.ltb_lt; lia).
+    cbn [option_map]. do 4 f_equal. lia.
+Qed.
+
+Lemma range_chain_snd r : map snd (range_chain r) = map VInt (range_elems r).
+Proof. unfold range_chain. now rewrite map_map. Qed.
+
+(* Range_Get: get(i) is the i-th item, for 0 <= i < len and for the negative indices -len .. -1;
+   everything else raises IndexOutOfBoundsError *)
+Lemma range_at_ok r i : in_box r -> 0 <= i < range_count r -> range_at r i = range_val r i.
+Proof.
+  intros Hb Hi. pose proof (range_val_bounds r i Hb Hi) as Hv.
+  pose proof (range_count_bound r Hb) as [Hc Hm]. specialize (Hm ltac:(lia)).
+  destruct Hb as (Hs & Ht & Hp & Hn). unfold box in *. unfold range_at, range_val in *.
+  rewrite (wrap64_id (r_stop r - 1)) by (unfold two63; lia).
+  assert (- two63 <= r_step r * i < two63).
+  { unfold two63. destruct (Z.ltb_spec 0 (r_step r)); [rewrite Z.abs_eq in Hm by lia | rewrite Z.abs_neq in Hm by lia]; nia. }
+  rewrite (wrap64_id (r_step r * i)) by auto.
+  destruct (Z.ltb_spec 0 (r_step r)); apply wrap64_id; unfold two63; lia.
+Qed.
+
+Lemma range_get_ok r key : in_box r -> - two63 <= key < two63 ->
+  range_get R r key =
+  let i := if key <? 0 then range_count r + key else key in
+  if (0 <=? i) && (i <? range_count r) then OVal (range_val r i) else ORaise EIndex.
+Proof.
+  intros Hb Hk. unfold range_get. cbn [range_get_checked repaired]. rewrite (range_len_ok r Hb).
+  pose proof (range_count_nonneg r) as Hc0. pose proof (range_count_bound r Hb) as [Hc _].
+  assert ((if key <? 0 then wrap64 (range_count r + key) else key) =
+          (if key <? 0 then range_count r + key else key)) as ->.
+  { destruct (Z.ltb_spec key 0); auto. apply wrap64_id. lia. }
+  cbv zeta. destruct Hb as (Hs & Ht & Hp & Hn). destruct (Z.eqb_spec (r_step r) 0); [contradiction|].
+  set (i := if key <? 0 then range_count r + key else key).
+  destruct (Z.leb_spec 0 i); destruct (Z.ltb_spec i (range_count r)); cbn [andb]; auto.
+  rewrite range_at_ok; auto. unfold in_box. auto.
+Qed.
